@@ -165,6 +165,15 @@ impl World {
                 }
                 self.after_step(&[i])
             }
+            Op::Foreign { r, k } => {
+                let i = self.rix(*r);
+                let (name, bytes) = gen::foreign_item(*k);
+                self.log.push(format!("r{} foreign item {} ({} bytes) appears in storage", i, name, bytes.len()));
+                self.universe.entry(name.clone()).or_insert_with(|| bytes.clone());
+                self.reps[i].store.put_raw(&name, &bytes);
+                self.bump("foreign_items_placed");
+                self.after_step(&[i])
+            }
             Op::FaultyCommit { r, k, info } => {
                 let i = self.rix(*r);
                 self.op_faulty_commit(i, *k, info_map(info))?;
@@ -569,6 +578,9 @@ impl World {
         if let Ok(v) = &res {
             if !v.is_empty() {
                 self.bump("melds_copying_items");
+            }
+            if v.iter().any(|k| !k.ends_with(".delta") && !k.ends_with(".pack")) {
+                self.bump("melds_copying_foreign_items");
             }
         }
         if let Some(pre) = pre {
